@@ -218,6 +218,7 @@ type r13State struct {
 	CIDNeg bool     `json:"cidneg"`
 	RRC    bool     `json:"rrc"`
 	Estab  bool     `json:"estab"`
+	Early  []string `json:"early"` // payloads parked until the local handshake completes
 }
 
 func r13Snapshot(c *Conn) r13State {
@@ -258,6 +259,13 @@ func r13Snapshot(c *Conn) r13State {
 	s.CIDNeg = st.CID.Negotiated
 	s.RRC = st.RRCNegotiated
 	s.Estab = c.handshakeEstablished != nil && c.isHandshakeCompletedSuccessfully()
+	s.Early = []string{}
+	// Conn.earlyApplicationData, read by name: trees before the early-data repair do not have the field
+	if f := reflect.ValueOf(c).Elem().FieldByName("earlyApplicationData"); f.IsValid() {
+		for i := 0; i < f.Len(); i++ {
+			s.Early = append(s.Early, vHex(f.Index(i).Bytes()))
+		}
+	}
 
 	return s
 }
@@ -417,6 +425,7 @@ type r13Side struct {
 	cts     [][]byte // ciphertexts of records delivered to this side (for the mask table)
 	written [][]byte // payloads this side wrote
 	userClosed bool  // the application closed this side: later deliveries are not part of the trace
+	reading    bool
 }
 
 type r13Sim struct {
@@ -432,6 +441,7 @@ func r13StartReader(p *vPeer) *r13Reader {
 	r := &r13Reader{}
 	go func() {
 		buf := make([]byte, 65536)
+		errs := 0
 		for {
 			n, err := p.Conn.Read(buf)
 			r.mu.Lock()
@@ -439,12 +449,14 @@ func r13StartReader(p *vPeer) *r13Reader {
 				eof := errors.Is(err, io.EOF) || errors.Is(err, ErrConnClosed)
 				r.evs = append(r.evs, c13Ev{err: err.Error(), eof: eof})
 				r.mu.Unlock()
-				if eof {
+				errs++
+				if eof || errs > 30 { // a failed handshake makes every Read fail at once: do not spin
 					return
 				}
 
 				continue
 			}
+			errs = 0
 			r.evs = append(r.evs, c13Ev{payload: append([]byte(nil), buf[:n]...)})
 			r.mu.Unlock()
 		}
@@ -528,6 +540,7 @@ func (s *r13Sim) deliver(to string, data []byte, tag string, auth, pl int) *r13S
 	before := s.lab.Net.count()
 	s.lab.Net.deliver(to, from, data)
 	synctest.Wait()
+	s.ensureReaders()
 	st := r13Snapshot(conn)
 	step := r13Step{Tag: tag, Auth: auth, Pl: pl, Ops: []r13Op{{Op: "arrive", Hex: vHex(data)}}}
 	// derive the key-schedule operations from the change of the read generations
@@ -725,7 +738,9 @@ func r13Variants() []r13Variant {
 	}
 }
 
-func r13Start(t *testing.T, v r13Variant, rng *vRand, w int) *r13Sim {
+// r13Begin creates both endpoints (handshakes started, nothing delivered yet); the readers run from the
+// start, so that what Read returns is attributed to the delivery that made it available
+func r13Begin(t *testing.T, v r13Variant, rng *vRand, w int) *r13Sim {
 	t.Helper()
 	ccfg, scfg := vCertPair()
 	for i, c := range []*dtlsConfig{ccfg, scfg} {
@@ -754,11 +769,34 @@ func r13Start(t *testing.T, v r13Variant, rng *vRand, w int) *r13Sim {
 		sd.rd = &r13Reader{}
 		s.sides[name] = sd
 	}
+
+	return s
+}
+
+// the readers start as soon as HandshakeContext has returned (a Read issued earlier would wait on the
+// handshake mutex, which the synctest bubble does not count as blocked), so that what Read returns is
+// attributed to the delivery that made it available
+func (s *r13Sim) ensureReaders() {
+	started := false
+	for _, name := range []string{"client", "server"} {
+		sd := s.sides[name]
+		if !sd.reading && sd.peer.handshakeDone() && sd.peer.Err == nil {
+			sd.reading = true
+			sd.rd = r13StartReader(sd.peer)
+			started = true
+		}
+	}
+	if started {
+		synctest.Wait()
+	}
+}
+
+func r13Start(t *testing.T, v r13Variant, rng *vRand, w int) *r13Sim {
+	t.Helper()
+	s := r13Begin(t, v, rng, w)
+	lab := s.lab
 	if !s.pump(lab.bothDone, nil, 60*time.Second) || !lab.established() {
 		t.Fatalf("rec13: handshake failed (%s): client=%v server=%v", v.Name, lab.Client.Err, lab.Server.Err)
-	}
-	for _, name := range []string{"client", "server"} {
-		s.sides[name].rd = r13StartReader(lab.peer(name))
 	}
 	// let the post-handshake records (ACK, NewSessionTicket) settle
 	s.pump(func() bool { return false }, nil, 300*time.Millisecond)
@@ -1277,6 +1315,7 @@ func r13RunSession(t *testing.T, v r13Variant, rng *vRand, w, writes, kus int, d
 func (s *r13Sim) opStep(to string, ops []r13Op, tag string) {
 	sd := s.sides[to]
 	synctest.Wait()
+	s.ensureReaders()
 	st := r13Snapshot(sd.peer.Conn)
 	obs := r13Obs{Delivered: []string{}, Alerts: [][2]int{}, ErrText: []string{}, Closed: st.Closed}
 	sd.rd.mu.Lock()
@@ -1371,6 +1410,120 @@ func r13RunPoke(t *testing.T, v r13Variant, rng *vRand, recv string) []r13Case {
 	return []r13Case{first, second}
 }
 
+
+// F84: application records of the next epoch overtake the client's Finished. The server parks them
+// (it has no keys for them yet), processes them from the handshake goroutine when the Finished arrives -
+// the local handshake is not complete at that moment - and Read must return each exactly once afterwards.
+// pion's own client does not write before the handshake completed, so the early records are sealed here with
+// the client's epoch-3 write secret, as a client that does not wait would.
+func r13RunEarly(t *testing.T, v r13Variant, rng *vRand, nEarly int) []r13Case {
+	t.Helper()
+	s := r13Begin(t, v, rng, 64)
+	defer s.lab.close()
+	heldFin := []vDatagram{}
+	pol := func(d vDatagram, os []r13Opened) vAction {
+		if d.From == "client" && len(d.Data) > 0 && protocol.IsDTLS13Ciphertext(protocol.ContentType(d.Data[0])) {
+			heldFin = append(heldFin, d)
+
+			return vDrop
+		}
+
+		return vPass
+	}
+	// until the client's final flight is on the wire (and withheld)
+	s.pump(func() bool { return len(heldFin) > 0 }, pol, 5*time.Second)
+	synctest.Wait()
+	note := ""
+	if len(heldFin) == 0 {
+		note = "client final flight not seen"
+	}
+	cst := r13St(s.lab.Client.Conn)
+	if _, ok := cst.TrafficKeys.Write(3); !ok {
+		note = "client has no epoch-3 write generation after its final flight"
+	}
+	if note == "" {
+		for i := 0; i < nEarly; i++ {
+			pl := r13Payload(rng, "client", 700+i)
+			s.sides["client"].written = append(s.sides["client"].written, pl)
+			s.deliver("server", s.craft("client", r13Craft{Epoch: 3, Seq: uint64(i), SBit: true, LBit: true, Type: 23, Body: pl}), "craft:early-app", 1, s.payloadNum("client", pl))
+		}
+		for len(cst.LocalSequenceNumber) <= 3 {
+			cst.LocalSequenceNumber = append(cst.LocalSequenceNumber, 0)
+		}
+		if cst.LocalSequenceNumber[3] < uint64(nEarly) {
+			cst.LocalSequenceNumber[3] = uint64(nEarly)
+		}
+		for _, d := range heldFin {
+			s.deliver("server", d.Data, "genuine:finished", 1, -1)
+		}
+		// the rest of the handshake, then one ordinary write each way
+		s.pump(s.lab.bothDone, nil, 10*time.Second)
+		if s.lab.established() {
+			s.write("client", r13Payload(rng, "client", 750))
+			s.pump(func() bool { return false }, nil, 200*time.Millisecond)
+		} else {
+			note = fmt.Sprintf("handshake did not complete: client=%v server=%v", s.lab.Client.handshakeDone(), s.lab.Server.handshakeDone())
+		}
+	}
+	c := s.result(v, fmt.Sprintf("early/n%d", nEarly), "server")
+	c.Note = note
+
+	return []r13Case{c}
+}
+
+// K-C06-2: replay window above half the 16-bit record-number range. A genuine record is held back, the
+// newest number of its epoch moves 32768+ ahead (authentic records, the sender's counter follows), then the
+// held record arrives: inside the configured window, never seen - and dropped.
+func r13RunBigWindow(t *testing.T, v r13Variant, rng *vRand, w int, behind uint64) []r13Case {
+	t.Helper()
+	s := r13Start(t, v, rng, w)
+	defer s.lab.close()
+	recv, send := "server", "client"
+	s.write(send, r13Payload(rng, send, 0))
+	s.pump(func() bool { return false }, nil, 50*time.Millisecond)
+	hold := r13HoldApp(send)
+	s.write(send, r13Payload(rng, send, 1))
+	s.pump(func() bool { return false }, hold, 50*time.Millisecond)
+	caps := s.held
+	s.held = nil
+	if len(caps) != 1 {
+		t.Fatalf("rec13: captured %d datagrams", len(caps))
+	}
+	os := s.openDatagram(send, caps[0].Data)
+	if len(os) != 1 {
+		t.Fatalf("rec13: cannot open the held record")
+	}
+	ep, q0 := os[0].Epoch, os[0].Seq
+	rst := r13St(s.lab.peer(recv).Conn)
+	sst := r13St(s.lab.peer(send).Conn)
+	high := func() uint64 {
+		if ep < len(rst.RemoteSequenceNumber) {
+			return rst.RemoteSequenceNumber[ep]
+		}
+
+		return 0
+	}
+	// move the newest number to q0 + behind in steps the reconstruction accepts
+	for i := 0; high() < q0+behind; i++ {
+		next := high() + 30000
+		if next > q0+behind {
+			next = q0 + behind
+		}
+		pl := r13Payload(rng, send, 100+i)
+		s.sides[send].written = append(s.sides[send].written, pl)
+		s.deliver(recv, s.craft(send, r13Craft{Epoch: ep, Seq: next, SBit: true, LBit: true, Type: 23, Body: pl}), "craft:ahead", 1, s.payloadNum(send, pl))
+		if i > 8 {
+			break
+		}
+	}
+	sst.LocalSequenceNumber[ep] = high() + 1
+	s.deliver(recv, caps[0].Data, "late-in-window", 1, s.payloadNum(send, os[0].Body))
+	c := s.result(v, fmt.Sprintf("bigwindow/w%d/behind%d", w, behind), recv)
+	c.Note = fmt.Sprintf("held record (epoch %d, seq %d), newest %d, window %d", ep, q0, high(), w)
+
+	return []r13Case{c}
+}
+
 func TestVerifRec13E2E(t *testing.T) {
 	out := newVOut(t)
 	rng := newVRand(vSeed() ^ 0x13e2e)
@@ -1404,6 +1557,28 @@ func TestVerifRec13E2E(t *testing.T) {
 		v := v
 		var res []r13Case
 		vBubble(t, func(t *testing.T) { res = r13RunPoke(t, v, rng, []string{"client", "server"}[i%2]) })
+		for _, c := range res {
+			out.emit(c)
+		}
+	}
+	for i, v := range variants {
+		if !vIsThorough() && i >= 3 {
+			continue
+		}
+		v := v
+		var res []r13Case
+		vBubble(t, func(t *testing.T) { res = r13RunEarly(t, v, rng, 1+i%3) })
+		for _, c := range res {
+			out.emit(c)
+		}
+	}
+	for i, spec := range [][2]uint64{{40000, 32799}, {40000, 32760}, {65536, 40000}, {32704, 32700}} {
+		if !vIsThorough() && i >= 3 {
+			continue
+		}
+		v := variants[i%len(variants)]
+		var res []r13Case
+		vBubble(t, func(t *testing.T) { res = r13RunBigWindow(t, v, rng, int(spec[0]), spec[1]) })
 		for _, c := range res {
 			out.emit(c)
 		}
